@@ -153,6 +153,35 @@ def scn_slice(contract, factory, args_b, args_u, pick, batch):
     return scn
 
 
+def scn_bdsk(T, m, pb, hb, times_given=False):
+    """birth-death skyline: the real PiecewiseConstantBirthDeath.log_prob with rates / rho / root-edge length of sample shape pb and node
+    heights of sample shape hb (m epochs, default equal-width grid or given boundaries, origin = root height + edge so that it is above
+    every sampled root).  The value is C09's subject; here only result[s] ≡ result of the s-th slices (or the combination raises)."""
+    pb, hb = tuple(pb), tuple(hb)
+
+    def scn(mk):
+        import torchtree.evolution.bdsk as bd
+        import contracts.C09 as C09
+        from vt.stubs import symbolic_factories
+        lam = mk.real("lam", pb + (m,), lo=0)
+        mu = mk.real("mu", pb + (m,), lo=0)
+        psi = mk.real("psi", pb + (m,), lo=0)
+        rho = mk.unit("rho", pb + (m,))
+        edge = mk.real("edge", pb + (1,), lo=0)
+        tips = [float(i) for i in range(T)]
+        inc = mk.real("hs", hb + (T - 1,), lo=0)
+        internal = inc.cumsum(-1) + tips[-1]
+        tip_t = torch.tensor(tips, dtype=torch.float64).expand(hb + (T,))
+        nh = torch.cat((mk.lift(tip_t) if mk.symbolic else tip_t, internal), -1)
+        kw = {}
+        if times_given:
+            kw["times"] = torch.tensor([0.0] + [0.5 + k for k in range(m - 1)], dtype=torch.float64)
+        with symbolic_factories(bd, extra=C09.EXTRA, enabled=mk.symbolic):
+            res = bd.PiecewiseConstantBirthDeath(lam, mu, psi, rho=rho, origin=edge, origin_is_root_edge=True, survival=True, **kw).log_prob(nh)
+        return [("eq", "log_density", res, res)]
+    return scn
+
+
 def _pick(cl, pick):
     for c in cl:
         if c[0] == "eq" and (pick is None or c[1] == pick):
@@ -336,6 +365,13 @@ def obligations(tier, seed):
                 ab = (model, T, "serial", hb, tb) + ((grid,) if grid else ())
                 au = (model, T, "serial", (), ()) + ((grid,) if grid else ())
                 add("C10.coalescent.%s[hbatch=%s,tbatch=%s]" % (model, hb, tb), "C08", "scn_coalescent", ab, au, "log_prob_is_kingman", b)
+    # birth-death skyline: parameters and/or node heights batched
+    for b in [(2,), (3,)]:
+        for pb, hb in ((b, ()), ((), b), (b, b)):
+            for m_ in (1, 2):
+                if m_ == 2 and (tier == "quick" or b != (2,)):
+                    continue   # two epochs: 16 paths x sqrt-heavy identities, ~6 min per obligation: thorough tier, sample shape (2,) only
+                add("C10.bdsk[m=%d,pbatch=%s,hbatch=%s]" % (m_, pb, hb), "C10", "scn_bdsk", (2, m_, pb, hb), (2, m_, (), ()), "log_density", b, timeout=1500)
     # GMRF
     for b in shapes[:5]:
         add("C10.gmrf.plain[N=4,batch=%s]" % (b,), "C20", "scn_gmrf", ("plain", 4, b), ("plain", 4, ()), "density_is_quadratic_form_of_published_precision", b)
